@@ -6,11 +6,11 @@ EXTENDS TraceCommon, FiniteSets
 
 TIds == FieldSet("Dedup", "id") \cup FieldSet("FakeFetch", "id") \cup FieldSet("BackendHandle", "id") \cup FieldSet("FakePost", "id") \cup FieldSet("FakePostFail", "id")
 
-VARIABLES lists, agent, cur, seen, w, calls, served, l
+VARIABLES lists, agent, cur, seen, w, calls, served, lost, l
 
-D == INSTANCE AgentDedup WITH IdPool <- TIds, LruCap <- 1000, MaxBatch <- 0, MaxLists <- 0, NoDedup <- FALSE
+D == INSTANCE AgentDedup WITH IdPool <- TIds, LruCap <- 1000, MaxBatch <- 0, MaxLists <- 0, NoDedup <- FALSE, ForgetOnFailure <- FALSE
 
-dvars == <<lists, agent, cur, seen, w, calls, served>>
+dvars == <<lists, agent, cur, seen, w, calls, served, lost>>
 Is(e) == l <= TLen /\ Trace[l].ev = e
 E == Trace[l]
 Step == l' = l + 1 /\ Mark(l)
@@ -21,14 +21,18 @@ TInit == D!Init /\ l = 1 /\ HWMInit
 \* a new scenario uses fresh IDs against the same agent: the window of earlier scenarios cannot
 \* interfere (the driver restarts the agent before 1000 IDs have been used)
 TReset == Is("Reset") /\ lists' = 0 /\ agent' = "idle" /\ cur' = <<>> /\ seen' = <<>>
-          /\ w' = [i \in TIds |-> <<>>] /\ calls' = [i \in TIds |-> 0] /\ served' = [i \in TIds |-> 0]
+          /\ w' = [i \in TIds |-> <<>>] /\ calls' = [i \in TIds |-> 0] /\ served' = [i \in TIds |-> 0] /\ lost' = FALSE
 
                /\ Step
 \* the environment action: the fake proxy replies to the agent's list call
 TFakeList == Is("FakeList")
              /\ (IF E.ids = <<>> THEN agent = "idle" /\ Stutter
-                ELSE /\ agent = "idle" /\ lists' = lists + 1 /\ cur' = E.ids /\ agent' = "proc"
+                ELSE /\ agent = "idle" /\ lists' = lists + 1 /\ cur' = E.ids /\ agent' = "proc" /\ lost' = FALSE
                      /\ UNCHANGED <<seen, w, calls, served>>)
+               /\ Step
+\* the fake proxy fails the agent's list call (5xx / connection closed): AgentDedup's EnvListFail - nothing is forgotten
+TFakeListFail == Is("FakeListFail") /\ agent = "idle" /\ lists' = lists + 1 /\ lost' = TRUE
+                 /\ UNCHANGED <<agent, cur, seen, w, calls, served>>
                /\ Step
 TListOK   == Is("ListOK") /\ Stutter /\ cur = E.ids
                /\ Step
@@ -61,7 +65,7 @@ TOther    == (Is("PollCheck") \/ Is("Healthy") \/ Is("WForward") \/ Is("WServed"
 TFinal    == Is("Final") /\ Stutter /\ E.agent_alive
              /\ (\A i \in TIds : Len(w[i]) > 0 => (calls[i] = 1 /\ (served[i] = 1 \/ \E k \in 1..Len(w[i]) : w[i][k] = "failed")))
                /\ Step
-TNext == TReset \/ TFakeList \/ TListOK \/ TDedup \/ TSpawn \/ TFetch \/ TBackend \/ TPost \/ TPostAgain \/ TPostFail \/ TOther \/ TFinal
+TNext == TReset \/ TFakeList \/ TFakeListFail \/ TListOK \/ TDedup \/ TSpawn \/ TFetch \/ TBackend \/ TPost \/ TPostAgain \/ TPostFail \/ TOther \/ TFinal
 TSpec == TInit /\ [][TNext]_<<dvars, l>>
 
 AtMostOnce == D!AtMostOnce
